@@ -40,7 +40,7 @@ RULE = (
 )
 ASSUMPTIONS = [
     "the reference decoder splits the wire at '\\n' and requires every frame to be '<', one repeated tag letter of the right length, '>'",
-    "server-side client objects and the TLS transport reuse the same lock discipline; they are exercised under C15/C17 and C08",
+    "server-side client objects reuse the same lock discipline and are exercised under C15/C17; the async TLS transport is driven directly (props/c12_tls.py: two senders + a parked reader over a leaf that suspends inside send_all)",
 ]
 BOUNDS = {"quick": "busy-placement bound 3", "thorough": "busy-placement bound 5"}
 
@@ -299,12 +299,10 @@ def jobs(tier: str) -> list[dict]:
             for cap in (1, 3, 8):
                 for drain in ("all", "1", "3"):
                     out.append({"part": "async", "subject": subject, "scenario": scen, "cap": cap, "drain": drain, "tier": tier})
-    try:
-        from . import c12_threads  # noqa: F401
+    from . import c12_threads, c12_tls
 
-        out += c12_threads.jobs(tier)
-    except ImportError:
-        pass
+    out += c12_threads.jobs(tier)
+    out += c12_tls.jobs(tier)
     return out
 
 
@@ -317,6 +315,10 @@ def run_job(job: dict) -> JobResult:
         from . import c12_threads
 
         return c12_threads.run_job(job)
+    if job["part"] == "tls":
+        from . import c12_tls
+
+        return c12_tls.run_job(job)
     cfg = {k: job[k] for k in ("subject", "scenario", "cap", "drain")}
     bound = 3 if job["tier"] == "quick" else 5
     found: dict[str, tuple[Ctx, dict]] = {}
@@ -355,6 +357,10 @@ def replay(doc: dict) -> tuple[bool, str]:
         from . import c12_threads
 
         return c12_threads.replay(doc)
+    if rp["part"] == "tls":
+        from . import c12_tls
+
+        return c12_tls.replay(doc)
     ctx = Ctx(rp["choices"])
     obs = run_client(ctx, rp["cfg"])
     bad = oracle_client(rp["cfg"], obs)
